@@ -444,7 +444,9 @@ def check(run):
     nvc, cmism = classify_chains(run, cres, "chains")
     nv += nvc
     if not ok and nv == 0:
-        run.violation("proof:%s" % failed, "proof", "proof obligation no longer checks: %s\n%s" % (failed, log[-1500:]),
+        diag = [n for n in run.notes if n.startswith("translator:")]
+        run.violation("proof:%s" % failed, "proof", "proof obligation no longer checks: %s; %s; both correspondence streams (model instantiated with the %s constants) found no deviation of the implementation\n%s"
+                      % (failed, " | ".join(diag) if diag else "no translator diagnosis", "reference" if getattr(run, "using_reference", False) else "regenerated", log[-800:]),
                       {"theorem": failed, "coq_log": log[-3000:], "translator_notes": run.notes})
     if res["mismatch"] and nv == 0:
         i, c, m, im = res["mismatch"][0]
